@@ -518,6 +518,16 @@ var c13Muts = []c13Mut{
 			&sDef{kind: "directive", name: "top", locs: []string{"OBJECT"}, dirArgs: []*sArg{{name: "a", t: named("Int"), dirs: []sDirUse{{name: "lft"}}}, {name: "b", t: named("Int"), dirs: []sDirUse{{name: "rgt"}}}}})
 		return "top"
 	}},
+	{"R7-repeated-union-member", func(r *Rng, s *sSet) string {
+		o := s.pick(r, "object")
+		s.defs = append(s.defs, &sDef{kind: "union", name: "URep", members: []string{o.name, o.name}})
+		return o.name
+	}},
+	{"R6-repeated-interface", func(r *Rng, s *sSet) string {
+		s.defs = append(s.defs, &sDef{kind: "interface", name: "IRep", fields: []*sField{{name: "irep", t: named("Int")}}},
+			&sDef{kind: "object", name: "ORep", ifaces: []string{"IRep", "IRep"}, fields: []*sField{{name: "irep", t: named("Int")}}})
+		return "IRep"
+	}},
 	{"R10-uncoercible-directive-argument-on-type", func(r *Rng, s *sSet) string {
 		s.defs = append(s.defs, &sDef{kind: "directive", name: "mark", locs: []string{"OBJECT", "FIELD_DEFINITION"}, dirArgs: []*sArg{{name: "n", t: named("Int")}}})
 		d := s.pick(r, "object")
